@@ -1,6 +1,9 @@
 """The property's own quick check in a process with a past (see mc/props/prelude.py): a child interpreter first executes the prelude - every
 operation with every option word of every option class, rejected calls whose messages are rendered, saves in all formats, audio of all widths,
-case-paired regular expressions - and then runs the check on a coarser grid (as the python -O part does).  The child must exit 0."""
+case-paired regular expressions - and then runs the check on a coarser grid (as the python -O part does).  In that child every case is
+moreover executed while the calling thread is handling an exception (inside an `except` block - `try: load(cache) / except FileNotFoundError:
+<library calls>` is how real scripts look), so that sys.exc_info() is non-empty on entry to every library call: a library that asks "is an
+exception in flight?" to decide on a roll-back gets the wrong answer there.  The child must exit 0."""
 import os
 import subprocess
 import sys
@@ -14,7 +17,7 @@ ROOT = os.path.dirname(os.path.dirname(os.path.dirname(os.path.abspath(__file__)
 def _check(prop):
     d = os.path.join(scratch_dir(), "poisoned-" + prop)
     os.makedirs(d, exist_ok=True)
-    env = dict(os.environ, PRAATIO_SRC=SRC, VERIF_EVIDENCE_DIR=d, VERIF_REPLAY_DIR=d, VERIF_CHILD="1", VERIF_PRELUDE="1", VERIF_INPUT_STRIDE="23",
+    env = dict(os.environ, PRAATIO_SRC=SRC, VERIF_EVIDENCE_DIR=d, VERIF_REPLAY_DIR=d, VERIF_CHILD="1", VERIF_PRELUDE="1", VERIF_IN_HANDLER="1", VERIF_INPUT_STRIDE="23",
                VERIF_INPUT_DENSE="400", VERIF_BFS_DEPTH_CAP="1", PYTHONDONTWRITEBYTECODE="1", PYTHONHASHSEED="0")
     p = subprocess.run([sys.executable, "-B", "-m", "mc.run", prop, "quick"], cwd=ROOT, env=env, stdout=subprocess.PIPE, stderr=subprocess.PIPE,
                        text=True, timeout=1500)
@@ -39,4 +42,5 @@ def part(prop):
                      rule="the property's own quick check re-run in a child process that first executed mc/props/prelude.py (every public operation with every "
                           "option word of every option class incl. case variants, the message of every rejected call rendered, degenerate entries, all file "
                           "formats with other tier names, audio of all widths, case-paired regular expressions), on the coarser grid of the python -O part: "
+                          "every case in that child runs inside an `except` block of the caller (sys.exc_info() non-empty on entry to every library call); "
                           "the child must exit 0", bounds={"stride": 23, "dense": 400, "bfs_depth": 1}, chunk=1)
